@@ -1,19 +1,38 @@
 use super::{constant::*, ConfigEntity};
 use crate::{base::ResourceType, logging, utils, Error, Result};
 use serde_yaml;
-use std::cell::RefCell;
+use lazy_static::lazy_static;
 use std::env;
 use std::fs::File;
 use std::io::prelude::*;
 use std::path::Path;
+use std::sync::RwLock;
 
-thread_local! {
-    static GLOBAL_CONFIG : RefCell<ConfigEntity> = RefCell::new(ConfigEntity::new());
+/// The configuration is process-wide: every thread (including the metric and
+/// system-stat collector threads) has to see the configuration given at
+/// initialization, so it cannot live in a `thread_local`.
+struct GlobalConfig(RwLock<ConfigEntity>);
+
+impl GlobalConfig {
+    fn with<R>(&self, f: impl FnOnce(&RwLock<ConfigEntity>) -> R) -> R {
+        f(&self.0)
+    }
+
+    fn try_with<R>(
+        &self,
+        f: impl FnOnce(&RwLock<ConfigEntity>) -> R,
+    ) -> std::result::Result<R, std::convert::Infallible> {
+        Ok(f(&self.0))
+    }
+}
+
+lazy_static! {
+    static ref GLOBAL_CONFIG: GlobalConfig = GlobalConfig(RwLock::new(ConfigEntity::new()));
 }
 
 pub fn reset_global_config(entity: ConfigEntity) {
     GLOBAL_CONFIG.with(|c| {
-        *c.borrow_mut() = entity;
+        *c.write().unwrap() = entity;
     });
 }
 
@@ -74,7 +93,7 @@ fn override_items_from_system_env() -> Result<()> {
 
     GLOBAL_CONFIG
         .try_with(|c| -> Result<()> {
-            let mut cfg = c.borrow_mut();
+            let mut cfg = c.write().unwrap();
             if !utils::is_blank(&app_name) {
                 cfg.config.app.app_name = app_name;
             }
@@ -97,7 +116,7 @@ pub fn init_log() -> Result<()> {
         .try_with(|c| {
             logging::info!(
                 "[Config] Print effective global config, globalConfig {:?}",
-                c.borrow()
+                c.read().unwrap()
             );
         })
         .unwrap();
@@ -108,119 +127,119 @@ pub fn init_log() -> Result<()> {
 #[inline]
 pub fn log_config_file() -> Option<String> {
     GLOBAL_CONFIG
-        .try_with(|c| c.borrow().config.log.config_file.clone())
+        .try_with(|c| c.read().unwrap().config.log.config_file.clone())
         .ok()
 }
 
 #[inline]
 pub fn log_metrc_dir() -> String {
     GLOBAL_CONFIG
-        .try_with(|c| c.borrow().config.log.metric.dir.clone())
+        .try_with(|c| c.read().unwrap().config.log.metric.dir.clone())
         .unwrap()
 }
 
 #[inline]
 pub fn log_metrc_pid() -> bool {
     GLOBAL_CONFIG
-        .try_with(|c| c.borrow().config.log.metric.use_pid)
+        .try_with(|c| c.read().unwrap().config.log.metric.use_pid)
         .unwrap()
 }
 
 #[inline]
 pub fn app_name() -> String {
     GLOBAL_CONFIG
-        .try_with(|c| c.borrow().config.app.app_name.clone())
+        .try_with(|c| c.read().unwrap().config.app.app_name.clone())
         .unwrap()
 }
 
 #[inline]
 pub fn app_type() -> ResourceType {
     GLOBAL_CONFIG
-        .try_with(|c| c.borrow().config.app.app_type)
+        .try_with(|c| c.read().unwrap().config.app.app_type)
         .unwrap()
 }
 
 #[inline]
 pub fn exporter_addr() -> String {
     GLOBAL_CONFIG
-        .try_with(|c| c.borrow().config.log.exporter.addr.clone())
+        .try_with(|c| c.read().unwrap().config.log.exporter.addr.clone())
         .unwrap()
 }
 
 #[inline]
 pub fn exporter_metrics_path() -> String {
     GLOBAL_CONFIG
-        .try_with(|c| c.borrow().config.log.exporter.metrics_path.clone())
+        .try_with(|c| c.read().unwrap().config.log.exporter.metrics_path.clone())
         .unwrap()
 }
 
 #[inline]
 pub fn metric_log_flush_interval_sec() -> u32 {
     GLOBAL_CONFIG
-        .try_with(|c| c.borrow().config.log.metric.flush_interval_sec)
+        .try_with(|c| c.read().unwrap().config.log.metric.flush_interval_sec)
         .unwrap()
 }
 
 #[inline]
 pub fn metric_log_single_file_max_size() -> u64 {
     GLOBAL_CONFIG
-        .try_with(|c| c.borrow().config.log.metric.single_file_max_size)
+        .try_with(|c| c.read().unwrap().config.log.metric.single_file_max_size)
         .unwrap()
 }
 
 #[inline]
 pub fn metric_log_max_file_amount() -> usize {
     GLOBAL_CONFIG
-        .try_with(|c| c.borrow().config.log.metric.max_file_count)
+        .try_with(|c| c.read().unwrap().config.log.metric.max_file_count)
         .unwrap()
 }
 
 #[inline]
 pub fn system_stat_collect_interval_ms() -> u32 {
     GLOBAL_CONFIG
-        .try_with(|c| c.borrow().config.stat.system.system_interval_ms)
+        .try_with(|c| c.read().unwrap().config.stat.system.system_interval_ms)
         .unwrap()
 }
 
 #[inline]
 pub fn load_stat_collec_interval_ms() -> u32 {
     GLOBAL_CONFIG
-        .try_with(|c| c.borrow().config.stat.system.load_interval_ms)
+        .try_with(|c| c.read().unwrap().config.stat.system.load_interval_ms)
         .unwrap()
 }
 
 #[inline]
 pub fn cpu_stat_collec_interval_ms() -> u32 {
     GLOBAL_CONFIG
-        .try_with(|c| c.borrow().config.stat.system.cpu_interval_ms)
+        .try_with(|c| c.read().unwrap().config.stat.system.cpu_interval_ms)
         .unwrap()
 }
 
 #[inline]
 pub fn memory_stat_collec_interval_ms() -> u32 {
     GLOBAL_CONFIG
-        .try_with(|c| c.borrow().config.stat.system.memory_interval_ms)
+        .try_with(|c| c.read().unwrap().config.stat.system.memory_interval_ms)
         .unwrap()
 }
 
 #[inline]
 pub fn use_cache_time() -> bool {
     GLOBAL_CONFIG
-        .try_with(|c| c.borrow().config.use_cache_time)
+        .try_with(|c| c.read().unwrap().config.use_cache_time)
         .unwrap()
 }
 
 #[inline]
 pub fn global_stat_interval_ms_total() -> u32 {
     GLOBAL_CONFIG
-        .try_with(|c| c.borrow().config.stat.interval_ms_total)
+        .try_with(|c| c.read().unwrap().config.stat.interval_ms_total)
         .unwrap()
 }
 
 #[inline]
 pub fn global_stat_sample_count_total() -> u32 {
     GLOBAL_CONFIG
-        .try_with(|c| c.borrow().config.stat.sample_count_total)
+        .try_with(|c| c.read().unwrap().config.stat.sample_count_total)
         .unwrap()
 }
 
@@ -234,14 +253,14 @@ pub fn global_stat_bucket_length_ms() -> u32 {
 #[inline]
 pub fn metric_stat_interval_ms() -> u32 {
     GLOBAL_CONFIG
-        .try_with(|c| c.borrow().config.stat.interval_ms)
+        .try_with(|c| c.read().unwrap().config.stat.interval_ms)
         .unwrap()
 }
 
 #[inline]
 pub fn metric_stat_sample_count() -> u32 {
     GLOBAL_CONFIG
-        .try_with(|c| c.borrow().config.stat.sample_count)
+        .try_with(|c| c.read().unwrap().config.stat.sample_count)
         .unwrap()
 }
 
